@@ -11,6 +11,11 @@
 //!           `libcnb_runtime` (it is a `detect`/`build` executable when invoked under those names)
 //!   tbp     a = detect | build            b = `<TBP_DETECT>;<TBP_BUILD>;<pre-existing outputs>`: the C05 test buildpack
 //!   probe   a = toml-order                b = `-`: `toml::Table` iterates in key order (BTreeMap, `preserve_order` off)
+//!   execd   a = `<api>,<entries…>`        b = wanted exec.d programs: a cached layer whose exec.d is prepared by hand (plain files, symlinks,
+//!           hard links), restored, and written again through the struct API (KeepLayer + `write_exec_d_programs`) or the trait API (`Update`);
+//!           see `execd_history`. 6 processes (18 on replay). Observation: `differ:…` or `equal|<result>|<exec.d listing>` (`execd_listing`).
+//! History ops added for restored layers: `K` symlink, `H` hard link (both placed by hand like `W`), `Q` listing of exec.d (bytes behind every
+//! name, link count). The raw snapshot carries link-ness as well (`raw_snapshot`).
 #![allow(deprecated)]
 use cnbv::ctx::TbError;
 use cnbv::*;
@@ -32,7 +37,7 @@ use std::cell::RefCell;
 use std::collections::HashMap;
 use std::ffi::OsString;
 use std::os::unix::ffi::{OsStrExt, OsStringExt};
-use std::os::unix::fs::PermissionsExt;
+use std::os::unix::fs::{MetadataExt, PermissionsExt};
 use std::path::{Path, PathBuf};
 use std::process::{Command, Stdio};
 
@@ -123,9 +128,16 @@ fn replace_bytes(hay: &[u8], needle: &[u8], with: &[u8]) -> Vec<u8> {
     while i < hay.len() { if hay[i..].starts_with(needle) { out.extend_from_slice(with); i += needle.len(); } else { out.push(hay[i]); i += 1; } }
     out
 }
-/// sorted lines `D path mode` / `F path mode hex` / `L path target`; the bytes of `tmp_root` inside contents are `$ROOT`
+/// what is behind a symlink (followed): `F<hex of the bytes>` / `D` / `-` (dangling or unreadable)
+fn behind_link(p: &Path, tmp: &[u8]) -> String {
+    match std::fs::metadata(p) { Ok(m) if m.is_dir() => "D".into(), Ok(_) => std::fs::read(p).map(|b| format!("F{}", hex(&replace_bytes(&b, tmp, b"$ROOT")))).unwrap_or_else(|_| "-".into()), Err(_) => "-".into() }
+}
+/// sorted lines `D path mode` / `F path mode hex[ n<nlink> =<first path of the same inode>]` / `L path target <what is behind>`;
+/// the bytes of `tmp_root` inside contents are `$ROOT`. A file with more than one name says so (`n2`) and names the first path
+/// (in walk order) that shares its inode, so that link-ness is part of what is compared.
 fn raw_snapshot(root: &Path, tmp_root: &Path, prefix: &str, out: &mut Vec<String>) {
-    fn walk(root: &Path, dir: &Path, tmp: &[u8], prefix: &str, out: &mut Vec<String>) {
+    type Inodes = std::collections::BTreeMap<(u64, u64), String>;
+    fn walk(root: &Path, dir: &Path, tmp: &[u8], prefix: &str, inodes: &mut Inodes, out: &mut Vec<String>) {
         let mut entries: Vec<_> = match std::fs::read_dir(dir) { Ok(rd) => rd.filter_map(Result::ok).collect(), Err(_) => { out.push(format!("{prefix} E {}", show_path(dir.strip_prefix(root).unwrap().as_os_str().as_bytes()))); return; } };
         entries.sort_by_key(|e| e.file_name());
         for e in entries {
@@ -133,14 +145,40 @@ fn raw_snapshot(root: &Path, tmp_root: &Path, prefix: &str, out: &mut Vec<String
             let rel = show_path(p.strip_prefix(root).unwrap().as_os_str().as_bytes());
             let md = std::fs::symlink_metadata(&p).unwrap();
             let mode = md.permissions().mode() & 0o7777;
-            if md.file_type().is_symlink() { out.push(format!("{prefix} L {rel} {}", hex(&replace_bytes(std::fs::read_link(&p).unwrap().as_os_str().as_bytes(), tmp, b"$ROOT")))); }
-            else if md.is_dir() { out.push(format!("{prefix} D {rel} {mode:o}")); walk(root, &p, tmp, prefix, out); }
-            else { let body = std::fs::read(&p).map(|b| hex(&replace_bytes(&b, tmp, b"$ROOT"))).unwrap_or_else(|_| "?".into()); out.push(format!("{prefix} F {rel} {mode:o} {body}")); }
+            if md.file_type().is_symlink() { out.push(format!("{prefix} L {rel} {} {}", hex(&replace_bytes(std::fs::read_link(&p).unwrap().as_os_str().as_bytes(), tmp, b"$ROOT")), behind_link(&p, tmp))); }
+            else if md.is_dir() { out.push(format!("{prefix} D {rel} {mode:o}")); walk(root, &p, tmp, prefix, inodes, out); }
+            else {
+                let body = std::fs::read(&p).map(|b| hex(&replace_bytes(&b, tmp, b"$ROOT"))).unwrap_or_else(|_| "?".into());
+                let shared = if md.nlink() > 1 { let first = inodes.entry((md.dev(), md.ino())).or_insert_with(|| rel.clone()).clone(); format!(" n{} ={first}", md.nlink()) } else { String::new() };
+                out.push(format!("{prefix} F {rel} {mode:o} {body}{shared}"));
+            }
         }
     }
     if !root.exists() { out.push(format!("{prefix} ABSENT")); return; }
     if root.is_file() { let body = std::fs::read(root).map(|b| hex(&replace_bytes(&b, tmp_root.as_os_str().as_bytes(), b"$ROOT"))).unwrap_or_else(|_| "?".into()); out.push(format!("{prefix} F . {body}")); return; }
-    walk(root, root, tmp_root.as_os_str().as_bytes(), prefix, out);
+    walk(root, root, tmp_root.as_os_str().as_bytes(), prefix, &mut Inodes::new(), out);
+}
+
+/// canonical listing of `<layer>/exec.d` (op `Q`): `absent` | `notdir` | `empty` | entries sorted by name, joined by `,`:
+/// `<namehex>:F:<hex of the bytes>:<nlink>` | `<namehex>:L:<target hex>:<what is behind>` | `<namehex>:D` | `<namehex>:O`;
+/// prefixed by `linkdir>` when `exec.d` itself is a symlink to a directory
+fn execd_listing(layer_dir: &Path, tmp: &[u8]) -> String {
+    let dir = layer_dir.join("exec.d");
+    let Ok(md) = std::fs::symlink_metadata(&dir) else { return "absent".into() };
+    let pre = if md.file_type().is_symlink() { "linkdir>" } else { "" };
+    let Ok(rd) = std::fs::read_dir(&dir) else { return "notdir".into() };
+    let mut entries: Vec<_> = rd.filter_map(Result::ok).collect();
+    entries.sort_by_key(|e| e.file_name());
+    let items: Vec<String> = entries.iter().map(|e| {
+        let p = e.path(); let n = hex(e.file_name().as_bytes());
+        match std::fs::symlink_metadata(&p) {
+            Ok(m) if m.file_type().is_symlink() => format!("{n}:L:{}:{}", hex(&replace_bytes(std::fs::read_link(&p).unwrap().as_os_str().as_bytes(), tmp, b"$ROOT")), behind_link(&p, tmp)),
+            Ok(m) if m.is_dir() => format!("{n}:D"),
+            Ok(m) if m.is_file() => format!("{n}:F:{}:{}", std::fs::read(&p).map(|b| hex(&replace_bytes(&b, tmp, b"$ROOT"))).unwrap_or_else(|_| "?".into()), m.nlink()),
+            _ => format!("{n}:O"),
+        }
+    }).collect();
+    format!("{pre}{}", if items.is_empty() { "empty".to_string() } else { items.join(",") })
 }
 
 // ------------------------------------------------------------------------------------------------ replaying layer histories
@@ -297,6 +335,16 @@ fn replay(ctx: &BuildContext<Dbp>, names: &[String], ops: &[&str], srcs: &Path, 
                 match r { Ok(d) => format!("ok:v{}:{}", d.content_metadata.metadata.v, show_env_probe(&d.env).replace(&hex(&root_bytes), "24524f4f54")), Err(e) => format!("err:{}", err_kind(&e)) }
             }
             "B" => { std::fs::write(layers.join(format!("{name}.toml")), "this is = not [toml").unwrap(); "ok".into() }
+            // a symlink put into the layer by hand (a restored layer can hold any): `<relative path hex>=<target hex>`, parents created;
+            // `$ROOT` inside the target stands for this run's temp root
+            "K" => { let (n, h) = p[2].split_once('=').unwrap(); let fp = layers.join(&name).join(os(&unhex(n).unwrap()));
+                let target = os(&replace_bytes(&unhex(h).unwrap(), b"$ROOT", &root_bytes));
+                match fp.parent().map(std::fs::create_dir_all).unwrap_or(Ok(())).and_then(|()| std::os::unix::fs::symlink(&target, &fp)) { Ok(()) => "ok".into(), Err(_) => "err:io".into() } }
+            // a second name for an existing file of the layer (hard link): `<relative path hex>=<relative path of the existing file, hex>`
+            "H" => { let (n, h) = p[2].split_once('=').unwrap(); let dir = layers.join(&name); let fp = dir.join(os(&unhex(n).unwrap()));
+                match fp.parent().map(std::fs::create_dir_all).unwrap_or(Ok(())).and_then(|()| std::fs::hard_link(dir.join(os(&unhex(h).unwrap())), &fp)) { Ok(()) => "ok".into(), Err(_) => "err:io".into() } }
+            // what can be read from every name in exec.d, and its link-ness
+            "Q" => execd_listing(&layers.join(&name), &root_bytes),
             w => match refs.get(&name) {
                 None => "noref".into(),
                 Some(r) => {
@@ -418,6 +466,71 @@ fn run_layers(a: &str, b: &str) -> Result<Vec<String>, String> {
     Ok(String::from_utf8_lossy(&o.stdout).lines().map(str::to_string).collect())
 }
 
+// ------------------------------------------------------------------------------------------------ kind `execd`
+/// path of a hand-prepared entry, relative to the layer directory: `exec.d/<name>[/<inner>]`, or outside `exec.d` — inside the layer
+/// (no `..`) or below the run's temp root (`../../<…>`); no empty / `.` component, not absolute
+fn execd_path_ok(path: &[u8]) -> bool {
+    if path.is_empty() || path.contains(&0) || path[0] == b'/' { return false; }
+    let rest: &[u8] = path.strip_prefix(b"../../".as_slice()).unwrap_or(path);
+    let outside = rest.len() != path.len();
+    let comps: Vec<&[u8]> = rest.split(|&c| c == b'/').collect();
+    if comps.iter().any(|c| c.is_empty() || *c == b"." || *c == b"..") { return false; }
+    if outside { return comps[0] != b"layers" && comps[0] != b"srcs"; }
+    if comps[0] == b"exec.d" { comps.len() == 2 || comps.len() == 3 } else { true }
+}
+fn prog_name_ok(n: &[u8]) -> bool { !n.is_empty() && !n.contains(&0) && !n.contains(&b'/') && n != b"." && n != b".." && std::str::from_utf8(n).is_ok() }
+
+/// The layer history behind a scenario of kind `execd` (replayed by `child-layers` like every other history).
+///   a = `<api>,<entry>,…`   api = `s`: struct API, `cached_layer` → `RestoredLayerAction::KeepLayer` → `LayerRef::write_exec_d_programs`
+///                           api = `t`: trait API, `ExistingLayerStrategy::Update` whose `update` returns the programs
+///       entry = `f<path hex>=<content hex>` plain file | `l<path hex>=<target hex>` symlink (`$ROOT` = temp root) |
+///               `h<path hex>=<path hex of an earlier f/h entry>` hard link; paths pairwise distinct (`execd_path_ok`)
+///   b = the wanted programs `<name hex>=<source content hex>` joined by `+`: distinct names, every source present
+/// History: create the cached layer, prepare the entries by hand, restore (the lifecycle between two builds), request the
+/// layer again (kept / Update), write the programs, list exec.d (`Q`).
+fn execd_history(a: &str, b: &str) -> Option<(String, String)> {
+    let parts = split_list(a, ",");
+    let api = *parts.first()?;
+    if api != "s" && api != "t" { return None; }
+    let l = hex(b"a");
+    let mut seen: Vec<(char, Vec<u8>)> = vec![];
+    let mut pre: Vec<String> = vec![];
+    for e in &parts[1..] {
+        let kind = e.chars().next()?;
+        let (ph, vh) = e.get(1..)?.split_once('=')?;
+        let (path, val) = (unhex(ph)?, unhex(vh)?);
+        if !execd_path_ok(&path) || seen.iter().any(|(_, p)| *p == path) { return None; }
+        pre.push(match kind {
+            'f' => format!("W.{l}.{ph}={vh}"),
+            'l' if !val.is_empty() && !val.contains(&0) => format!("K.{l}.{ph}={vh}"),
+            'h' if seen.iter().any(|(k, p)| *k != 'l' && *p == val) => format!("H.{l}.{ph}={vh}"),
+            _ => return None,
+        });
+        seen.push((kind, path));
+    }
+    let mut names: Vec<Vec<u8>> = vec![];
+    for x in split_list(b, "+") {
+        let (n, h) = x.split_once('=')?;
+        let n = unhex(n)?; unhex(h)?;
+        if !prog_name_ok(&n) || names.contains(&n) { return None; }
+        names.push(n);
+    }
+    let mut ops: Vec<String> = vec![];
+    if api == "s" { ops.push(format!("C.{l}.11.G.d1.k2")); ops.append(&mut pre); ops.push(format!("M.{l}.w=3_zeta=1")); ops.push("R".into()); ops.push(format!("C.{l}.11.G.d1.k2")); ops.push(format!("X.{l}.{b}")); }
+    else { ops.push(format!("T.{l}.111.k.v=1.-.-.-")); ops.append(&mut pre); ops.push("R".into()); ops.push(format!("T.{l}.111.u.v=2.-.{b}.-")); }
+    ops.push(format!("Q.{l}"));
+    Some((l, ops.join(";")))
+}
+
+/// all runs agreed: `equal|<result of the write: ok / err:kind>|<exec.d listing>` taken from the first run
+fn execd_observation(lines: &[String]) -> String {
+    let rs: Vec<&String> = lines.iter().filter(|l| l.split(' ').nth(1) == Some("R")).collect();
+    if rs.len() < 2 { return "infra:no-result-lines".into(); }
+    let res = rs[rs.len() - 2].split(' ').nth(2).unwrap_or("?");
+    let listing = rs[rs.len() - 1].split(' ').nth(2).unwrap_or("?");
+    format!("equal|{}|{listing}", if res.starts_with("ok") { "ok" } else { res })
+}
+
 const OLD: &[u8] = b"OLD-CONTENT\n";
 const PRE_STORE: &str = "[metadata]\nzeta = 1\nalpha = \"x\"\n\n[metadata.nested]\nk2 = true\nk1 = 2\n";
 
@@ -483,6 +596,7 @@ fn fnv(fields: &[String]) -> u64 { let mut h = 0xcbf29ce484222325u64; for f in f
 fn one_run(kind: &str, a: &str, b: &str) -> Result<Vec<String>, String> {
     match kind {
         "layers" => run_layers(a, b),
+        "execd" => { let (names, ops) = execd_history(a, b).ok_or_else(|| "bad-fields".to_string())?; run_layers(&names, &ops) }
         "bp" => {
             if a != "detect" && a != "build" { return Err("bad-fields".into()); }
             let names = ["a", "bee", "c-3"].iter().map(|n| hex(n.as_bytes())).collect::<Vec<_>>().join(",");
@@ -511,11 +625,13 @@ fn run_case(f: &[String]) -> String {
     let slow = fnv(f) % 16 == 0;
     let one = |_i: usize| one_run(kind, a, b);
     let reference = match one(0) { Ok(r) => r, Err(e) if e == "bad-fields" || e == "bad-pre" => return "bad-fields".into(), Err(e) => return format!("infra:{e}") };
-    let n_runs = runs();
+    // kind execd: two aliased names show a leak in one pair with probability 1/2 only, and a process is cheap: 6 / 18 runs
+    let n_runs = if kind == "execd" { 2 * runs() - 2 } else { runs() };
     for i in 1..n_runs {
         if slow && i == n_runs - 1 { std::thread::sleep(std::time::Duration::from_millis(1100)); }
         match one(i) { Ok(r) => { if let Some(d) = compare(&reference, &r, i) { return d; } } Err(e) => return format!("infra:{e}") }
     }
+    if kind == "execd" { return execd_observation(&reference); }
     "equal".into()
 }
 
@@ -626,6 +742,90 @@ fn generate(tier: &str, seed: u64, emit: &mut dyn FnMut(Case)) {
         let k = 3; // several variables whose winner depends on the visiting order
         emit(mk("layers", names3.clone(), join(";", &ops), "dupenv", k, true));
     }
+
+    // 2c. a restored layer whose exec.d was prepared by hand — plain files, symlinks to siblings / elsewhere in the layer / outside the
+    //     layers directory / dangling, hard-linked pairs (two names of one inode, also with a file outside exec.d), stale names aliasing
+    //     wanted ones, sub-directories — and is then written again with 2-4 wanted programs from distinct sources through both
+    //     APIs (kind `execd`: struct KeepLayer + write_exec_d_programs, trait Update). Every pattern x n in 2..=4 x both APIs.
+    let ef = |path: &str, content: &str| format!("f{}={}", hex(path.as_bytes()), hex(content.as_bytes()));
+    let el = |path: &str, target: &str| format!("l{}={}", hex(path.as_bytes()), hex(target.as_bytes()));
+    let eh = |path: &str, of: &str| format!("h{}={}", hex(path.as_bytes()), hex(of.as_bytes()));
+    let execd_case = |api: &str, entries: &[String], wanted: &[String], sub: &str, shared: usize| {
+        let progs: Vec<String> = wanted.iter().enumerate().map(|(i, w)| format!("{}={}", hex(w.as_bytes()), hex(format!("#!/bin/sh\n# source {i} of {w}\n").as_bytes()))).collect();
+        let mut a = vec![api.to_string()]; a.extend(entries.iter().cloned());
+        Case { fields: vec!["execd".into(), a.join(","), join("+", &progs)],
+            tags: vec![("kind".into(), format!("execd-{sub}")), ("hashkeys".into(), wanted.len().to_string()), ("shared".into(), shared.min(4).to_string())],
+            nontrivial: shared >= 2 || wanted.len() >= 3 }
+    };
+    const WN: [&str; 4] = ["10-env", "20-path", "a.sh", "zz"];
+    for n in 2..=4usize { for api in ["s", "t"] {
+        let w: Vec<String> = WN[..n].iter().map(|x| x.to_string()).collect();
+        let x = |i: usize| format!("exec.d/{}", w[i]);
+        let plain_from = |k: usize| -> Vec<String> { (k..n).map(|i| ef(&x(i), &format!("old {}\n", w[i]))).collect() };
+        let mut pats: Vec<(&str, Vec<String>, usize)> = vec![];
+        pats.push(("absent", vec![ef("bin/tool", "tool\n")], 0));
+        pats.push(("plain", { let mut v = plain_from(0); v.push(ef("exec.d/stale", "stale\n")); v.push(ef("exec.d/sub/inner", "inner\n")); v }, 0));
+        pats.push(("symsib", { let mut v = vec![ef(&x(1), "old\n"), el(&x(0), &w[1])]; v.extend(plain_from(2)); v }, 2));
+        pats.push(("symsib-rev", { let mut v = vec![ef(&x(0), "old\n"), el(&x(n - 1), &w[0])]; v.extend((1..n - 1).map(|i| ef(&x(i), "old\n"))); v }, 2));
+        pats.push(("hard", { let mut v = vec![ef(&x(0), "old\n"), eh(&x(1), &x(0))]; v.extend(plain_from(2)); v }, 2));
+        pats.push(("hard-all", { let mut v = vec![ef(&x(0), "old\n")]; v.extend((1..n).map(|i| eh(&x(i), &x(0)))); v }, n));
+        pats.push(("symelse", { let mut v = vec![ef("bin/tool", "tool\n"), el(&x(0), "../bin/tool"), el(&x(1), "../bin/tool")]; v.extend(plain_from(2)); v }, 2));
+        pats.push(("symout", { let mut v = vec![ef("../../ext/shared", "ext\n"), el(&x(0), "$ROOT/ext/shared"), el(&x(1), "$ROOT/ext/shared")]; v.extend(plain_from(2)); v }, 2));
+        pats.push(("dangling", { let mut v = vec![el(&x(0), "nowhere"), el(&x(1), "nowhere")]; v.extend(plain_from(2)); v }, 2));
+        pats.push(("chain", { let mut v = vec![ef(&x(1), "old\n"), el(&x(0), &w[1])]; if n >= 3 { v.push(eh(&x(2), &x(1))); } v.extend(plain_from(3)); v }, n.min(3)));
+        pats.push(("stale-alias", { let mut v = plain_from(0); v.push(eh("exec.d/old-copy", &x(0))); v.push(el("exec.d/zlink", &w[1])); v }, 0));
+        pats.push(("hard-out", { let mut v = vec![ef("bin/tool", "tool\n"), eh(&x(0), "bin/tool"), eh(&x(1), "bin/tool")]; v.extend(plain_from(2)); v }, 2));
+        pats.push(("partial", vec![ef(&x(0), "old\n"), eh("exec.d/stale", &x(0)), el("exec.d/zz-link", "stale")], 0));
+        pats.push(("selfloop", { let mut v = vec![el(&x(0), &w[0])]; v.extend(plain_from(1)); v }, 0));
+        for (sub, entries, shared) in pats { emit(execd_case(api, &entries, &w, sub, shared)); }
+    } }
+    // 2d. the same kind, sampled: 2-4 wanted names out of 6, each pre-existing as plain file / symlink / hard link / not at all, stale names likewise
+    let n_exd = if thorough { 600 } else if search { 160 } else { 48 };
+    for idx in 0..n_exd {
+        let mut r = Rng::for_case(seed ^ 0xE7EC, idx);
+        let mut pool: Vec<&str> = PROGS.to_vec(); r.shuffle(&mut pool);
+        let nw = 2 + r.below(3) as usize;
+        let wanted: Vec<String> = pool[..nw].iter().map(|x| x.to_string()).collect();
+        let nstale = r.below(3) as usize;
+        let mut entries: Vec<String> = vec![];
+        let mut files: Vec<String> = vec![];   // paths that can be hard-linked (f / h entries)
+        let mut groups: Vec<(String, usize)> = vec![]; // storage designated by wanted names -> how many wanted names
+        if r.chance(1, 2) { entries.push(ef("bin/tool", "tool\n")); files.push("bin/tool".into()); }
+        let ext = r.chance(1, 3);
+        if ext { entries.push(ef("../../ext/shared", "ext\n")); }
+        let mut order: Vec<usize> = (0..nw + nstale).collect(); r.shuffle(&mut order);
+        for i in order {
+            let name = pool[i]; let path = format!("exec.d/{name}"); let is_wanted = i < nw;
+            let storage: Option<String> = match r.below(8) {
+                0 => None,
+                1 | 2 => { entries.push(ef(&path, &format!("old {name}\n"))); files.push(path.clone()); Some(path.clone()) }
+                3 | 4 => { let sib = *r.pick(&pool[..nw + nstale]);
+                    let t: String = match r.below(5) { 0 | 1 | 2 => sib.to_string(), 3 => "../bin/tool".into(), _ => if ext { "$ROOT/ext/shared".into() } else { "nowhere".into() } };
+                    entries.push(el(&path, &t)); Some(if t.contains('/') { t } else { format!("exec.d/{t}") }) }
+                _ => { if files.is_empty() { entries.push(ef(&path, &format!("old {name}\n"))); files.push(path.clone()); Some(path.clone()) }
+                    else { let of = r.pick(&files).clone(); entries.push(eh(&path, &of)); files.push(path.clone()); Some(format!("inode-of:{of}")) } }
+            };
+            if let (true, Some(st)) = (is_wanted, storage) { match groups.iter_mut().find(|g| g.0 == st) { Some(g) => g.1 += 1, None => groups.push((st, 1)) } }
+        }
+        // (an under-approximation of the sharing: chains of links are not resolved; it only feeds the tags)
+        let shared = groups.iter().map(|g| g.1).max().unwrap_or(0);
+        emit(execd_case(if r.chance(1, 2) { "s" } else { "t" }, &entries, &wanted, "rnd", if shared >= 2 { shared } else { 0 }));
+    }
+    // 2e. exec.d itself a symlink (to a directory of the layer, to a directory outside, dangling) and link entries placed by the
+    //     history ops K / H, listed by Q, in ordinary `layers` histories through both APIs
+    for (i, target) in ["xd", "$ROOT/ext/xd", "nowhere"].iter().enumerate() { for api in ["s", "t"] {
+        let mut ops: Vec<String> = vec![if api == "s" { format!("C.{a}.11.G.d1.k2") } else { format!("T.{a}.111.k.v=1.-.-.-") }];
+        ops.push(format!("W.{a}.{}={}", hex(if i == 1 { "../../ext/xd/p0" } else { "xd/p0" }.as_bytes()), hex(b"old p0\n")));
+        ops.push(format!("H.{a}.{}={}", hex(b"xd/p1"), hex(b"xd/p0")));
+        ops.push(format!("K.{a}.{}={}", hex(b"exec.d"), hex(target.as_bytes())));
+        ops.push(format!("K.{a}.{}={}", hex(b"bin/alpha"), hex(b"../xd/p0")));
+        ops.push(format!("Q.{a}"));
+        ops.push("R".into());
+        let pr = progs(&mut r, 3 + i, false);
+        if api == "s" { ops.push(format!("C.{a}.11.G.d1.k2")); ops.push(format!("X.{a}.{pr}")); } else { ops.push(format!("T.{a}.111.u.v=2.-.{pr}.-")); }
+        ops.push(format!("Q.{a}"));
+        emit(layer_case(ops, "execdlink"));
+    } }
 
     let n_layers = if thorough { 6600 } else if search { 400 } else { 300 };
     let maxlen = if thorough { 30 } else { 14 };
